@@ -121,6 +121,8 @@ pub enum Event<'a> {
     DepAdd { txid: usize, dep: Option<usize> },
     DepRemove { txid: usize, handoff: Option<usize> },
     KeyTx { txid: usize },
+    /// `dep` was installed as the current blocker of `txid` (under the dependent's lock)
+    DepBlocked { txid: usize, dep: usize },
     /// the claimability flag of `txid` flipped to true (under the dependent's lock)
     DepOnboard { txid: usize },
     /// `txid` was handed to a claimer (cursor claim or direct hand-off), under the dependent's lock
